@@ -137,6 +137,10 @@ def qr(A, q0, q1):
     assert len(q1) == A.shape[1]
     assert is_qsparse(A, [q0, -q1])
 
+    # Q and R inherit the data type of A; integer entries would get truncated
+    if not np.issubdtype(A.dtype, np.inexact):
+        A = A.astype(float)
+
     # find common quantum numbers
     qis = np.intersect1d(q0, q1)
 
